@@ -20,7 +20,7 @@ struct Out {
    CaseOut* out = nullptr;
    std::string cls;                         // interface class of the root being swept
    std::string state;                       // factory/state label of the root
-   long long zero_values = 0, nonzero_values = 0, calls = 0, values = 0, refusals = 0, sequences = 0, non_ascending_first_visits = 0, elements = 0, out_of_range = 0, optionals_empty = 0, optionals_set = 0, objects = 0, keyed_lookups = 0;
+   long long zero_values = 0, nonzero_values = 0, calls = 0, values = 0, refusals = 0, sequences = 0, non_ascending_first_visits = 0, elements = 0, out_of_range = 0, optionals_empty = 0, optionals_set = 0, objects = 0, keyed_lookups = 0, iterator_walk_moves = 0;
    std::set<const Node*>* seen = nullptr;
    std::vector<const Node*>* discovered = nullptr;
    std::map<std::string, long long> per_accessor;
@@ -117,6 +117,32 @@ template<class S> void touch_sequence(Out& o, const S& s, int depth, const std::
    for (auto i : probes) if (i >= n) must_refuse(o, where, "element at index " + (i <= n + 2 ? "size()+" + std::to_string(i - n) : std::to_string(i)), [&] { (void)&*s.position(i); });
    must_refuse(o, where, "element before begin()", [&] { auto it = s.begin(); --it; (void)&*it; });
    must_refuse(o, where, "element at end()", [&] { (void)&*s.end(); });
+   // One iterator object that has been READ and is then moved out of range by each of the four moves, and read again: the read
+   // after the move is refused whatever was read before it; moved back in range, it reads the element of its position again.
+   if (n > 0) {
+      const Elem* first = &*s.position(0); const Elem* last = &*s.position(n - 1);
+      must_refuse(o, where, "element before begin(), after reading begin() and then it--", [&] { auto it = s.begin(); (void)&*it; (void)it.operator->(); it--; (void)&*it; });
+      must_refuse(o, where, "element before begin(), after reading begin() and then --it", [&] { auto it = s.begin(); (void)&*it; --it; (void)&*it; });
+      must_refuse(o, where, "element at end(), after reading the last element and then it++", [&] { auto it = s.position(n - 1); (void)&*it; it++; (void)&*it; });
+      must_refuse(o, where, "element at end(), after reading the last element and then ++it", [&] { auto it = s.position(n - 1); (void)&*it; ++it; (void)it.operator->(); });
+      set_fork_note((where + " iterator moved out of range and back").c_str());
+      { auto it = s.begin(); (void)&*it; it--; it++; if (&*it != first) o.viol("sequence:iterator-back-in-range:" + where, where + ": an iterator read at begin(), moved before it and back, does not read the first element"); }
+      { auto it = s.position(n - 1); (void)&*it; it++; it--; if (&*it != last) o.viol("sequence:iterator-back-in-range:" + where, where + ": an iterator read at the last element, moved to end() and back, does not read the last element"); }
+      // a short random walk of one iterator object, read before and after every move, compared with position()
+      static std::uint64_t walk_state = 0x9e3779b97f4a7c15ull;
+      std::size_t idx = n / 2; auto it = s.position(idx);
+      for (int step = 0; step < 12; ++step) {
+         walk_state = walk_state * 6364136223846793005ull + 1442695040888963407ull;
+         int mv = int((walk_state >> 33) % 4);
+         if (idx == 0 && mv >= 2) mv -= 2;
+         if (idx + 1 >= n && mv < 2) mv += 2;
+         if (idx == 0 && idx + 1 >= n) break;
+         if (&*it != &*s.position(idx)) { o.viol("sequence:iterator-walk:" + where, where + ": an iterator does not read the element at its index"); break; }
+         if (mv == 0) { ++it; ++idx; } else if (mv == 1) { it++; ++idx; } else if (mv == 2) { --it; --idx; } else { it--; --idx; }
+         if (&*it != &*s.position(idx) || it.operator->() != &*s.position(idx)) { o.viol(std::string("sequence:iterator-walk:after-") + (mv == 0 ? "pre-increment" : mv == 1 ? "post-increment" : mv == 2 ? "pre-decrement" : "post-decrement") + ":" + where, where + ": an iterator that was read and then moved does not read the element at its new index"); break; }
+         ++o.iterator_walk_moves;
+      }
+   }
 }
 
 template<class T> void sweep_object(Out& o, const T& v, int depth, const std::string& cls);
@@ -274,7 +300,7 @@ static void body(Ctx& C)
                discovered.clear();
             }
             out.count("accessor_calls", o.calls); out.count("calls_returning_a_value", o.values); out.count("calls_refused_with_logic_error", o.refusals);
-            out.count("sequences_checked", o.sequences); out.count("sequences_first_read_out_of_ascending_order", o.non_ascending_first_visits); out.count("sequence_elements_visited", o.elements); out.count("out_of_range_probes", o.out_of_range);
+            out.count("sequences_checked", o.sequences); out.count("sequences_first_read_out_of_ascending_order", o.non_ascending_first_visits); out.count("sequence_elements_visited", o.elements); out.count("out_of_range_probes", o.out_of_range); out.count("moves_of_an_iterator_that_had_been_read", o.iterator_walk_moves);
             out.count("optionals_empty", o.optionals_empty); out.count("optionals_set", o.optionals_set); out.count("keyed_lookups", o.keyed_lookups); out.count("objects_swept", o.objects);
             out.count("nodes_swept", swept); out.count("scalar_results_read", o.zero_values + o.nonzero_values);
             if (o.calls > 12 && o.refusals > 0 && o.sequences > 0) out.line("S\t" + J().s("kind", "node-sweep").s("class", cls).s("state", state).n("accessor_calls", o.calls).n("returned_a_value", o.values).n("refused_with_logic_error", o.refusals)
